@@ -27,6 +27,11 @@ def ttl_case(draw, broker):
             "payload": draw(st.text("ab{}\"", max_size=5)), "due_frac": draw(st.integers(1, 99)) / 100,
             "backoff_us": draw(st.integers(0, 3_000_000)), "period_us": draw(st.integers(1_000_000, 5_000_000)),
             "copies": draw(st.sampled_from([1, 1, 2, 3, 4]))}
+    if draw(st.integers(0, 4)) == 0:
+        # time-to-live of a day and more, scheduled long ago: the expiry is still only seconds away
+        case["ttl_us"] = draw(st.sampled_from([86400, 2 * 86400 + 3, 30 * 86400, 400 * 86400 + 7])) * 1_000_000 + draw(st.integers(0, 999_999))
+        case["age_us"] = case["ttl_us"] - draw(st.integers(500_000, 20_000_000))
+        case["long"] = True
     if broker != "mem":
         case["lat"] = draw(st.lists(st.sampled_from([0.0, 0.001, 0.003]), max_size=12))
     return case
@@ -132,7 +137,7 @@ async def _ttl(loop, case, out: Outcome):
                   "category", broker=case["broker"])
     band = ("after-expiry" if expiry is not None and t_c > expiry + slack else
             "before-expiry" if (expiry is None or t_end < expiry - slack) else "unconstrained")
-    out.cls("broker-" + case["broker"], "kind-" + kind, "band-" + band, f"copies-{len(ids)}")
+    out.cls("broker-" + case["broker"], "kind-" + kind, "band-" + band, f"copies-{len(ids)}", "ttl-days" if case.get("long") else "ttl-seconds")
     out.nontrivial = band != "unconstrained" and (abs(case["eps_us"]) <= 1_000_000 or kind not in ("immediate", "no-ttl"))
 
 
